@@ -11,6 +11,8 @@
 //   PROJI D d N M <ids N> <P> <m> <X M*D>  `ids` (any sub-range / permutation / offset block of 0..M-1; X has M
 //   EMBI  method solver N D d k nq M <ids N> <X M*D> <Q nq*D>   samples): row i belongs to sample ids[i];
 //        projection(x_{ids[i]}) is what is printed as row i of `pi`.
+//   EMBO / EMBOI  as EMB / EMBI, but the call is made from INSIDE a `#pragma omp parallel num_threads(3)` region of the
+//        harness, by every thread of the team at once; the answer of the last thread is reported (+ R team <n>).
 //        -> R emb (N x d), R has 0|1 (projection.implementation non-null), and when non-null:
 //           R kind matrix|other, R P (D x d), R m (D), R pi (N x d: projection(x_i) for every i),
 //           R pq (nq x d: projection(q_j)).
@@ -19,6 +21,7 @@
 
 #include <map>
 #include <numeric>
+#include <omp.h>
 #include <tapkee/callbacks/eigen_callbacks.hpp>
 
 using namespace tapkee;
@@ -49,6 +52,71 @@ static const std::map<std::string, DimensionReductionMethod>& method_map()
         {"ms", ManifoldSculpting},
     };
     return m;
+}
+
+
+// everything one EMB case asks of tapkee: embed, then apply the returned projection to every training sample and to
+// the query vectors.  Touches only its own output object (so that several threads may run it at once).
+struct EmbedResult
+{
+    bool ran = false, failed = false, has = false, is_matrix = false;
+    long pisize = -1;
+    std::string error;
+    DenseMatrix embedding, P, PI, PQ;
+    DenseVector m;
+};
+
+static void run_embed(const std::string& meth, const std::string& solver, int d, int kk, const DenseMatrix& X,
+                      const DenseMatrix& Qr, const std::vector<IndexType>& idx, EmbedResult& res)
+{
+    const int N = (int)idx.size();
+    const int nq = (int)Qr.rows();
+    eigen_features_callback fcb(X);
+    eigen_kernel_callback kcb(X);
+    eigen_distance_callback dcb(X);
+    TapkeeOutput out =
+        tapkee::with((method = method_map().at(meth), target_dimension = d, num_neighbors = kk,
+                      eigen_method = solver_of(solver), sne_perplexity = 2.0, max_iteration = 20,
+                      landmark_ratio = 0.5, gaussian_kernel_width = 10.0))
+            .withKernel(kcb)
+            .withDistance(dcb)
+            .withFeatures(fcb)
+            .embedUsing(idx);
+    res.embedding = out.embedding;
+    res.has = (bool)out.projection.implementation;
+    if (res.has)
+    {
+        MatrixProjectionImplementation* mpi =
+            dynamic_cast<MatrixProjectionImplementation*>(out.projection.implementation.get());
+        res.is_matrix = (mpi != nullptr);
+        if (mpi)
+        {
+            res.P = mpi->proj_mat;
+            res.m = mpi->mean_vec;
+        }
+        res.PI.resize(N, out.embedding.cols());
+        for (int i = 0; i < N; i++)
+        {
+            DenseVector y = out.projection(X.col(idx[i]));
+            if (y.size() != res.PI.cols())
+            {
+                res.pisize = y.size();
+                break;
+            }
+            res.PI.row(i) = y.transpose();
+        }
+        if (nq > 0 && res.pisize < 0)
+        {
+            res.PQ.resize(nq, out.embedding.cols());
+            for (int j = 0; j < nq; j++)
+            {
+                DenseVector q = Qr.row(j).transpose();
+                DenseVector y = out.projection(q);
+                res.PQ.row(j) = y.transpose();
+            }
+        }
+    }
+    res.ran = true;
 }
 
 static bool bad_dim(int v, int hi)
@@ -129,70 +197,75 @@ int main()
                 DenseVector y = pf(x);
                 print_vector("y", y);
             }
-            else if (cmd == "EMB" || cmd == "EMBI")
+            else if (cmd == "EMB" || cmd == "EMBI" || cmd == "EMBO" || cmd == "EMBOI")
             {
+                const bool ranged = (cmd == "EMBI" || cmd == "EMBOI");
+                const bool in_parallel_region = (cmd == "EMBO" || cmd == "EMBOI");
                 std::string meth, solver;
                 int N, D, d, kk, nq, M;
                 is >> meth >> solver >> N >> D >> d >> kk >> nq;
                 M = N;
-                if (cmd == "EMBI") is >> M;
+                if (ranged) is >> M;
                 DenseMatrix Xr, Qr;
                 std::vector<IndexType> idx(N > 0 ? N : 0);
                 if (!is || method_map().count(meth) == 0 || bad_dim(D, 4096) || bad_dim(N, 100000) || bad_dim(nq, 100000) ||
                     bad_dim(M, 100000))
                     return bad();
-                if (cmd == "EMBI") { if (!read_ids(is, N, M, idx)) return bad(); }
+                if (ranged) { if (!read_ids(is, N, M, idx)) return bad(); }
                 else std::iota(idx.begin(), idx.end(), 0);
                 if (!read_matrix(is, M, D, Xr) || !read_matrix(is, nq, D, Qr)) return bad();
                 DenseMatrix X = Xr.transpose();
-                eigen_features_callback fcb(X);
-                eigen_kernel_callback kcb(X);
-                eigen_distance_callback dcb(X);
-                TapkeeOutput out =
-                    tapkee::with((method = method_map().at(meth), target_dimension = d, num_neighbors = kk,
-                                  eigen_method = solver_of(solver), sne_perplexity = 2.0, max_iteration = 20,
-                                  landmark_ratio = 0.5, gaussian_kernel_width = 10.0))
-                        .withKernel(kcb)
-                        .withDistance(dcb)
-                        .withFeatures(fcb)
-                        .embedUsing(idx);
-                print_matrix("emb", out.embedding);
-                bool has = (bool)out.projection.implementation;
-                std::cout << "R has " << (has ? 1 : 0) << std::endl;
-                if (has)
+                EmbedResult res;
+                if (!in_parallel_region)
                 {
-                    MatrixProjectionImplementation* mpi =
-                        dynamic_cast<MatrixProjectionImplementation*>(out.projection.implementation.get());
-                    std::cout << "R kind " << (mpi ? "matrix" : "other") << std::endl;
-                    if (mpi)
+                    run_embed(meth, solver, d, kk, X, Qr, idx, res);      // exceptions propagate to guarded()
+                }
+                else
+                {
+                    // the call is made from inside the application's own parallel region, by every thread at once (each
+                    // on its own output objects; the data is shared read-only); what is reported is the answer of the
+                    // LAST thread of the team.  An exception must not leave the region.
+                    const int team = 3;
+                    std::vector<EmbedResult> all(team);
+#pragma omp parallel num_threads(team)
                     {
-                        print_matrix("P", mpi->proj_mat);
-                        print_vector("m", mpi->mean_vec);
-                    }
-                    DenseMatrix PI(N, out.embedding.cols());
-                    bool size_ok = true;
-                    for (int i = 0; i < N && size_ok; i++)
-                    {
-                        DenseVector y = out.projection(X.col(idx[i]));
-                        if (y.size() != PI.cols())
+                        const int t = omp_get_thread_num();
+                        if (t < team)
                         {
-                            std::cout << "R pisize " << y.size() << std::endl;
-                            size_ok = false;
-                            break;
+                            try
+                            {
+                                run_embed(meth, solver, d, kk, X, Qr, idx, all[t]);
+                            }
+                            catch (const std::exception& e)
+                            {
+                                all[t].error = e.what();
+                                all[t].failed = true;
+                            }
                         }
-                        PI.row(i) = y.transpose();
                     }
-                    if (size_ok) print_matrix("pi", PI);
-                    if (nq > 0 && size_ok)
+                    int last = team - 1;
+                    while (last > 0 && !all[last].ran && !all[last].failed) last--;   // team may be smaller than asked for
+                    res = all[last];
+                    int ran = 0;
+                    for (int t = 0; t < team; t++) ran += (all[t].ran || all[t].failed) ? 1 : 0;
+                    std::cout << "R team " << ran << std::endl;
+                    if (res.failed) throw std::runtime_error(res.error);
+                }
+                print_matrix("emb", res.embedding);
+                std::cout << "R has " << (res.has ? 1 : 0) << std::endl;
+                if (res.has)
+                {
+                    std::cout << "R kind " << (res.is_matrix ? "matrix" : "other") << std::endl;
+                    if (res.is_matrix)
                     {
-                        DenseMatrix PQ(nq, out.embedding.cols());
-                        for (int j = 0; j < nq; j++)
-                        {
-                            DenseVector q = Qr.row(j).transpose();
-                            DenseVector y = out.projection(q);
-                            PQ.row(j) = y.transpose();
-                        }
-                        print_matrix("pq", PQ);
+                        print_matrix("P", res.P);
+                        print_vector("m", res.m);
+                    }
+                    if (res.pisize >= 0) std::cout << "R pisize " << res.pisize << std::endl;
+                    else
+                    {
+                        print_matrix("pi", res.PI);
+                        if (nq > 0) print_matrix("pq", res.PQ);
                     }
                 }
             }
